@@ -358,6 +358,16 @@ class SafePriceWorld(sp.PairWorld):
         return None
 
     def exec_query(self, op):
+        o = self.exec_query_on(op, self.pair)
+        if o["via"] == "view":
+            # the views take the pair's address as an argument and read everything from THAT pair's storage: asked
+            # through another instance of the same code (different tokens, reserves and LP supply - the deployed "view
+            # factory" arrangement) the answer must be the same
+            o2 = self.exec_query_on(op, self.pair2, slim=True)
+            o["ok2"], o["res2"], o["msg2"] = o2["ok"], o2["res"], o2["msg"]
+        return o
+
+    def exec_query_on(self, op, X, slim=False):
         vm = self.vm
         q = qargs(op)
         kind = q[0]
@@ -365,22 +375,22 @@ class SafePriceWorld(sp.PairWorld):
         via = "view"
         want_endpoint = op[-1] == "endpoint"
         if kind == "QObs":
-            r = vm.query(P, "getPriceObservation", [P, top_u(q[1])])
+            r = vm.query(X, "getPriceObservation", [P, top_u(q[1])])
             res = dec_obs(r.out[0]) if r.ok else []
         elif kind in ("QPrice", "QPriceOff", "QPriceTs", "QPriceDef"):
             tok, amt = q[-2], q[-1]
             pay = nest_bytes(T[tok]) + nest_u64(0) + nest_big(amt)
             if kind == "QPrice":
-                r = vm.query(P, "getSafePrice", [P, top_u(q[1]), top_u(q[2]), pay])
+                r = vm.query(X, "getSafePrice", [P, top_u(q[1]), top_u(q[2]), pay])
             elif kind == "QPriceOff":
-                r = vm.query(P, "getSafePriceByRoundOffset", [P, top_u(q[1]), pay])
+                r = vm.query(X, "getSafePriceByRoundOffset", [P, top_u(q[1]), pay])
             elif kind == "QPriceTs":
-                r = vm.query(P, "getSafePriceByTimestampOffset", [P, top_u(q[1]), pay])
+                r = vm.query(X, "getSafePriceByTimestampOffset", [P, top_u(q[1]), pay])
             elif want_endpoint:
                 via = "endpoint"
                 r = vm.call(self.addr[1], P, "updateAndGetSafePrice", [pay])
             else:
-                r = vm.query(P, "getSafePriceByDefaultOffset", [P, pay])
+                r = vm.query(X, "getSafePriceByDefaultOffset", [P, pay])
             if r.ok:
                 t, n, a = dec_payment(r.out[0])
                 res = [TOK_CODE.get(t, 99), a]
@@ -389,16 +399,16 @@ class SafePriceWorld(sp.PairWorld):
         else:
             liq = q[-1]
             if kind == "QLp":
-                r = vm.query(P, "getLpTokensSafePrice", [P, top_u(q[1]), top_u(q[2]), top_u(liq)])
+                r = vm.query(X, "getLpTokensSafePrice", [P, top_u(q[1]), top_u(q[2]), top_u(liq)])
             elif kind == "QLpOff":
-                r = vm.query(P, "getLpTokensSafePriceByRoundOffset", [P, top_u(q[1]), top_u(liq)])
+                r = vm.query(X, "getLpTokensSafePriceByRoundOffset", [P, top_u(q[1]), top_u(liq)])
             elif kind == "QLpTs":
-                r = vm.query(P, "getLpTokensSafePriceByTimestampOffset", [P, top_u(q[1]), top_u(liq)])
+                r = vm.query(X, "getLpTokensSafePriceByTimestampOffset", [P, top_u(q[1]), top_u(liq)])
             elif want_endpoint:
                 via = "endpoint"
                 r = vm.call(self.addr[1], P, "updateAndGetTokensForGivenPositionWithSafePrice", [top_u(liq)])
             else:
-                r = vm.query(P, "getLpTokensSafePriceByDefaultOffset", [P, top_u(liq)])
+                r = vm.query(X, "getLpTokensSafePriceByDefaultOffset", [P, top_u(liq)])
             if r.ok:
                 p1, p2 = dec_payment(r.out[0]), dec_payment(r.out[1])
                 res = [p1[2], p2[2]]
@@ -406,6 +416,8 @@ class SafePriceWorld(sp.PairWorld):
                     res = [-1, -2]
             else:
                 res = []
+        if slim:
+            return dict(ok=r.ok, msg=r.msg, res=res, via=via)
         sh = self.sh
         now = self.round
         old = sh.oldest()
@@ -415,7 +427,7 @@ class SafePriceWorld(sp.PairWorld):
             x = q[1]
             o["classes"] = [sh.lookup_class(x, now)]
             if old is not None and old <= x <= now:
-                ref = vm.query(P, "getPriceObservation", [P, top_u(old)])
+                ref = vm.query(X, "getPriceObservation", [P, top_u(old)])
                 o["ref"] = dec_obs(ref.out[0]) if ref.ok else None
                 o["sums"] = sh.sums(old, x)
         else:
